@@ -1569,9 +1569,13 @@ class Time(Atomic):
                 else:
                     tup_list.append(int(s))
 
-            # fix the hundredths if necessary
-            if (tup_list[3] > 0) and (tup_list[3] < 10):
-                tup_list[3] = tup_list[3] * 10
+            # the last part is a fraction of a second, in hundredths when
+            # it has two digits and in tenths when it has one
+            frac = tup_items[3]
+            if (frac is not None) and (frac != '*'):
+                if len(frac) > 2:
+                    raise ValueError("invalid hundredths")
+                tup_list[3] = int((frac + '0')[:2])
 
             self.value = tuple(tup_list)
 
